@@ -44,6 +44,9 @@ class FunctionReport:
         self.used_models: set[str] = set()
         self.refuted: list[dict] = []
         self.vacuous = False
+        self.abort_reasons: set = set()
+        self.alts: list = []
+        self.any_feasible = False
         self.bounded = None
         self.source_file = ""
         self.source_lines = (0, 0)
@@ -97,6 +100,8 @@ class FunctionReport:
             "used_contracts": sorted(self.used_contracts),
             "used_models": sorted(self.used_models),
             "refuted": self.refuted[:20],
+            "abort_reasons": sorted(self.abort_reasons)[:5],
+            "any_feasible": self.any_feasible,
         }
 
 
@@ -105,7 +110,9 @@ def _split_key(key: str):
     return mod, qual
 
 
-def verify_function(key: str, contracts: dict, *, tier="quick", only_clauses=None) -> FunctionReport:
+def verify_function(key: str, contracts: dict, *, tier="quick", only_clauses=None, start=None, one_path=False):
+    """Sequential driver (one_path=False) or a single path from decision prefix `start` (one_path=True: the
+    untaken alternatives are returned in rep.alts for a parallel driver to schedule)."""
     c = contracts[key]
     rep = FunctionReport(key)
     if c.get("list_bound") is not None:
@@ -114,7 +121,7 @@ def verify_function(key: str, contracts: dict, *, tier="quick", only_clauses=Non
     mod, qual = _split_key(key)
     oblig_timeout = c.get("timeout_ms", 10000 if tier == "quick" else 60000)
     feas_timeout = c.get("feas_timeout_ms", 1500)
-    worklist: list = [{}]
+    worklist: list = [dict(start) if start else {}]
     try:
         node = SOURCES.find(mod, qual)
     except Exception as e:
@@ -142,8 +149,9 @@ def verify_function(key: str, contracts: dict, *, tier="quick", only_clauses=Non
         try:
             _run_path(interp, ctx, c, key, rep)
             any_feasible = True
-        except Abort:
+        except Abort as e:
             any_feasible = any_feasible or bool(ctx.obligs)
+            rep.abort_reasons.add(str(e))
         except Unsupported as e:
             rep.undecided_reason = f"UNSUPPORTED: {e}"
             for ob in ctx.obligs:
@@ -163,10 +171,23 @@ def verify_function(key: str, contracts: dict, *, tier="quick", only_clauses=Non
         rep.inlined |= interp.inlined
         rep.used_contracts |= interp.used_contracts
         rep.used_models |= interp.used_models
+        if one_path:
+            rep.alts = list(ctx.alts)
+            rep.any_feasible = any_feasible
+            rep.wall = time.time() - t0
+            return rep
         worklist.extend(ctx.alts)
+    if one_path:
+        rep.alts = []
+        rep.any_feasible = any_feasible
+        rep.wall = time.time() - t0
+        return rep
     if not any_feasible and not rep.undecided_reason:
         rep.vacuous = True
         rep.undecided_reason = "VACUOUS: no feasible path satisfies the precondition"
+    if rep.paths_returning + rep.paths_raising == 0 and not rep.undecided_reason:
+        rep.vacuous = True
+        rep.undecided_reason = "VACUOUS: no explored path reaches an exit of the function (" + "; ".join(sorted(rep.abort_reasons)[:3]) + ")"
     rep.wall = time.time() - t0
     return rep
 
@@ -305,12 +326,12 @@ def _check_frame(interp, ctx, c, qn, loc, old):
 # ---------------------------------------------------------------------------------------
 # lemmas (pure obligations over spec functions / contracts)
 # ---------------------------------------------------------------------------------------
-def verify_lemma(name: str, *, tier="quick") -> FunctionReport:
+def verify_lemma(name: str, *, tier="quick", start=None, one_path=False) -> FunctionReport:
     l = S.LEMMAS[name]
     rep = FunctionReport("lemma:" + name)
     rep.bounded = l.get("bounded")
     t0 = time.time()
-    worklist: list = [{}]
+    worklist: list = [dict(start) if start else {}]
     c = {"gl": l["gl"], "module": l["module"]}
     any_feasible = False
     while worklist:
@@ -344,7 +365,18 @@ def verify_lemma(name: str, *, tier="quick") -> FunctionReport:
             rep.add(ob)
         rep.solver_time += ctx.solver_time
         rep.used_models |= interp.used_models
+        if one_path:
+            rep.alts = list(ctx.alts)
+            rep.any_feasible = any_feasible
+            rep.paths_returning += 1 if any_feasible else 0
+            rep.wall = time.time() - t0
+            return rep
         worklist.extend(ctx.alts)
+    if one_path:
+        rep.alts = []
+        rep.any_feasible = any_feasible
+        rep.wall = time.time() - t0
+        return rep
     if not any_feasible and not rep.undecided_reason:
         rep.vacuous = True
         rep.undecided_reason = "VACUOUS: lemma hypotheses are contradictory"
@@ -371,3 +403,69 @@ def run_jobs(jobs: list[tuple], nproc: int = 12) -> list[dict]:
         return [_worker(j) for j in jobs]
     with mp.get_context("fork").Pool(min(nproc, len(jobs))) as pool:
         return pool.map(_worker, jobs, chunksize=1)
+
+
+def merge_parts(key: str, parts: list[dict], *, is_lemma=False, truncated=None) -> dict:
+    """Combines the per-path partial reports of one function into its report (parallel driver)."""
+    out = None
+    rank = {"proved": 0, "undecided": 1, "refuted": 2}
+    obs: dict[str, dict] = {}
+    any_feasible = False
+    for p in parts:
+        if p.get("status") == "crash":
+            return p
+        if out is None:
+            out = {k: p.get(k) for k in ("function", "source_file", "source_lines", "bounded")}
+            out.update(paths=0, paths_returning=0, paths_raising=0, vcs=0, vcs_discharged=0, solver_time_s=0.0, wall_s=0.0,
+                       backends={}, inlined=set(), used_contracts=set(), used_models=set(), refuted=[], undecided_reason=None, abort_reasons=set())
+        for k in ("paths", "paths_returning", "paths_raising", "vcs", "vcs_discharged"):
+            out[k] += p.get(k, 0)
+        out["solver_time_s"] += p.get("solver_time_s", 0.0)
+        out["wall_s"] += p.get("wall_s", 0.0)
+        for b, n in p.get("backends", {}).items():
+            out["backends"][b] = out["backends"].get(b, 0) + n
+        out["inlined"] |= set(p.get("inlined", []))
+        out["used_contracts"] |= set(p.get("used_contracts", []))
+        out["used_models"] |= set(p.get("used_models", []))
+        out["abort_reasons"] |= set(p.get("abort_reasons", []))
+        out["refuted"] += p.get("refuted", [])
+        any_feasible = any_feasible or p.get("any_feasible", False)
+        if p.get("undecided_reason") and not out["undecided_reason"]:
+            out["undecided_reason"] = p["undecided_reason"]
+        for o in p.get("obligations", []):
+            a = obs.setdefault(o["name"], dict(o, vcs=0, time_s=0.0, backends=[], status="proved"))
+            a["vcs"] += o["vcs"]
+            a["time_s"] = round(a["time_s"] + o["time_s"], 4)
+            for b in o.get("backends", []):
+                if b not in a["backends"]:
+                    a["backends"].append(b)
+            if rank[o["status"]] > rank[a["status"]]:
+                a["status"] = o["status"]
+                if o.get("why"):
+                    a["why"] = o["why"]
+    if out is None:
+        return {"function": key, "status": "crash", "traceback": "no partial report", "obligations": [], "vcs": 0, "vcs_discharged": 0}
+    vac = False
+    if truncated and not out["undecided_reason"]:
+        out["undecided_reason"] = truncated
+    if not any_feasible and not out["undecided_reason"]:
+        vac = True
+        out["undecided_reason"] = "VACUOUS: no feasible path satisfies the precondition"
+    if out["paths_returning"] + out["paths_raising"] == 0 and not out["undecided_reason"]:
+        vac = True
+        out["undecided_reason"] = "VACUOUS: no explored path reaches an exit of the function (" + "; ".join(sorted(out["abort_reasons"])[:3]) + ")"
+    out["obligations"] = list(obs.values())
+    if any(o["status"] == "refuted" for o in obs.values()):
+        st = "refuted"
+    elif out["undecided_reason"] or any(o["status"] == "undecided" for o in obs.values()) or not obs or vac:
+        st = "undecided"
+    else:
+        st = "proved"
+    out["status"] = st
+    out["vacuous"] = vac
+    out["refuted"] = out["refuted"][:20]
+    for k in ("inlined", "used_contracts", "used_models", "abort_reasons"):
+        out[k] = sorted(out[k])
+    out["solver_time_s"] = round(out["solver_time_s"], 3)
+    out["wall_s"] = round(out["wall_s"], 3)
+    return out
